@@ -103,6 +103,10 @@ M2 = [
   [('uniquify', '_is_unique', 'static')], 'true-iff-instantiated-once-or-leaf', 'uniq'),
  ('flat-leaf-test-ignores-cables', 'spydrnet/ir/definition.py', 'if len(self._children) > 0 or len(self._cables) > 0:', 'if len(self._children) > 0:',
   [('Definition', 'is_leaf', 'method')], 'true-iff-no-children-and-no-cables', 'flat'),
+ ('uniq-public-twin-two-references', 'spydrnet/ir/instance.py', 'if len(self.reference.references) == 1 or self.reference.is_leaf():', 'if len(self.reference.references) <= 2 or self.reference.is_leaf():',
+  [('Instance', 'is_unique', 'method')], 'true-iff-instantiated-once-or-leaf', 'uniq'),
+ ('flat-public-twin-and-for-or', 'spydrnet/ir/instance.py', 'elif len(self._reference._children) > 0 or len(self._reference._cables) > 0:', 'elif len(self._reference._children) > 0 and len(self._reference._cables) > 0:',
+  [('Instance', 'is_leaf', 'method')], 'true-iff-has-a-definition-without-children-and-cables', 'flat'),
  ('loop-guard-undeclared-store', 'spydrnet/ir/cable.py', '        for _ in range(wire_count):\n            self.create_wire()', '        for _ in range(wire_count):\n            self.create_wire()\n            self._is_scalar = False',
   [('Cable', 'create_wires', 'method')], 'DEGRADED', 'ir'),
  ('benign-ns-local-rename', 'spydrnet/plugins/namespace_manager/__init__.py', 'parent_namespace', 'policy_of_parent', [('NamespaceManager', 'add', 'method')], None, 'ns'),
